@@ -3,7 +3,7 @@
            query outcome of the verification backend, query outcome of the stock test backend) *)
 From Coq Require Import NArith List Bool.
 From PS Require Import Base.Chars Base.Outcome Model.SString Model.PyRegex Model.Placeholder
-                       Spec.Items Spec.Expand Run.Bits.
+                       Spec.Items Spec.Expand Proofs.PlaceholderP Run.Bits.
 Import ListNotations.
 Open Scope N_scope.
 
@@ -36,31 +36,6 @@ Definition oclass_eqb (a b : outcome str) : bool :=
   | _, _ => false
   end.
 
-(* ---- the specification's view of the same case (glue: plain re-tagging of the input) ---- *)
-Definition to_smod (m : vmod) : smod :=
-  match m with MExpand => SExpand | MContains => SContains | MStartswith => SStartswith | MEndswith => SEndswith end.
-Definition to_sitem (t : titem) : sitem :=
-  {| s_kind := match t_kind t with
-               | KValueList => SValueList | KWildcard => SWildcard | KQuery e m => SQuery e m end;
-     s_inc := t_inc t; s_exc := t_exc t |}.
-(* a variable has a usable table when it exists, is a scalar or a non-empty list, and every element is a
-   string or a number *)
-Definition tabs_of (vs : vars) (n : str) : stab :=
-  match assoc n vs with
-  | None => SNoTable
-  | Some tab =>
-    let l := match tab with TScalar x => [x] | TList l => l end in
-    if forallb (fun x => match x with VText _ => true | VBad => false end) l
-    then STable (flat_map (fun x => match x with VText t => [t] | VBad => [] end) l)
-    else SNoTable
-  end.
-
-Definition expected (c : case) : list (option (list sval)) :=
-  map (fun s => s_expected1 (tabs_of (c_vars c)) (if c_field c then Some [102] else None)
-                            (map to_sitem (c_items c))
-                            (s_source (c_re c) (map to_smod (c_mods c)) s))
-      (c_values c).
-
 Definition count_pct (s : str) : nat := length (filter (N.eqb c_pct) s).
 Definition sval_pct (x : sval) : nat :=
   match x with
@@ -87,8 +62,7 @@ Definition judge_expand (x : case * option (list value) * outcome str * outcome 
     | _ => true
     end && ostr_eqb m iq && oclass_eqb m istock in
   let exp := expected c in
-  let lhs := if c_field c then [102] else [c_us] in
-  let spec := s_accepts lhs (c_all c) exp iq && stock_ok exp istock in
+  let spec := s_accepts (lhs_of c) (c_all c) exp iq && stock_ok exp istock in
   let dom := match all_some exp with Some groups => flat_ok (c_all c) groups | None => true end in
   let nontriv := existsb (fun s => match s_source (c_re c) (map to_smod (c_mods c)) s with
                                    | Some (XS l) | Some (XR l) => match ph_of l with [] => false | _ => true end
